@@ -626,3 +626,56 @@ def s10_check_parse_readers(ctx):
             good = "get_integer" in p_r and "get_integer" in c_r and (c_r - LINE) == set() and (p_r - LINE) == set()
             r.add("net::frame::Frame", "tag %r: header length read by get_integer in both" % tag, good, where(cb, cbb), "" if good else "check uses %s, parse uses %s" % (sorted(c_r), sorted(p_r)))
     return r
+
+
+def s11_empty_number_guard(ctx):
+    r = RuleResult("S11", "get_integer rejects a number without digits: the test that guards the NotInteger return compares the digit cursor with the very value the digit loops started from (the position after an optional sign) — a bare sign has no value", floor=1)
+    b = ctx.prog.one("net::frame::get_integer")
+    f = fam_name(b)
+    # the digit cursor: a user variable that is incremented by 1 in loops and indexes the buffer
+    cands = {}
+    for l, defs in b.defs.items():
+        if not b.locals[l].get("user") or b.local_ty(l) != "usize":
+            continue
+        inc = init = None
+        for bi, si, whole in defs:
+            if si == "T" or not whole or bi not in b.live_blocks():
+                continue
+            o = b.origin_rvalue(b.blocks[bi]["stmts"][si]["rv"])
+            po = peel(o)
+            if po[0] == "field" and po[2] == "0":
+                po = peel(po[1])
+            if po[0] == "bin" and po[1] in ("Add", "AddWithOverflow") and const_int(po[3]) == 1 and peel_var(po[2])[0] == "var" and peel_var(po[2])[1] == l:
+                inc = bi
+            elif o[0] == "var" or peel(o)[0] in ("var", "call", "cast"):
+                init = o
+        if inc is not None and init is not None:
+            cands[l] = init
+    if len(cands) != 1:
+        r.unrec(f, "digit cursor variable", short_span(b.span), "found %d candidates" % len(cands))
+        return r
+    idx, init = list(cands.items())[0]
+    init_local = init[1] if init[0] == "var" else None
+    found = False
+    for bb in sorted(b.live_blocks()):
+        info = b.switch_info(bb)
+        if not info or info["kind"] != "bool":
+            continue
+        o = peel_var(info["on"])
+        if o[0] == "bin" and o[1] == "Eq":
+            sides = [o[2], o[3]]
+            vs = [s_ for s_ in sides if s_[0] == "var" and s_[1] == idx]
+            others = [s_ for s_ in sides if not (s_[0] == "var" and s_[1] == idx)]
+            if vs and others:
+                # does the true edge lead to an Err(NotInteger) return?
+                for e in b.succ[bb]:
+                    if info["arms"].get(e.dst) == [True]:
+                        rs = ret_classes(b, e.dst, lambda x: x.kind == "unwind")
+                        if rs and all(c == "err" for c, d, rb in rs):
+                            found = True
+                            ot = others[0]
+                            good = ot[0] == "var" and init_local is not None and ot[1] == init_local
+                            r.add(f, "'no digits' test compares the cursor with its starting value", good, where(b, bb), "" if good else "compares with %s but the digit loops start at %s: a bare sign would be accepted as 0" % (origin_str(ot), origin_str(init)))
+    if not found:
+        r.bad(f, "'no digits' test", short_span(b.span), "no test `cursor == start` guarding an error return: an empty digit string is accepted")
+    return r
